@@ -138,7 +138,10 @@ _ORD = {
     "filter_block": "{% filter upper %}{{ x }}a{% endfilter %}",
     "indent": "[{{ x | indent(n) }}][{{ x | indent(n, true) }}][{{ x | indent(n, flag, true) }}]",
     "indent_block": "{% filter indent(2, true) %}" + LF + "{{ x }}" + LF + "{% endfilter %}",
-    "strings": "{{ x | upper }}|{{ x | lower }}|{{ x | trim }}|{{ x | length }}|{{ x | replace('a', 'bb') }}|{{ x | center(n) }}|{{ x | capitalize }}",
+    # (one template per group of string filters: as a single template the condition took 860 s, the groups run in parallel)
+    "strings": "{{ x | upper }}|{{ x | lower }}|{{ x | trim }}",
+    "strings2": "{{ x | length }}|{{ x | replace('a', 'bb') }}",
+    "strings3": "{{ x | center(n) }}|{{ x | capitalize }}",
     "include": "<{% include 'ord_inc' %}>",
     "ws_control": "a  {%- if flag %}  {{ x }}  {%- endif -%}  b",
     "comment_raw": "{# c #}{% raw %}{{ x }}{% endraw %}{{ x }}",
